@@ -20,8 +20,15 @@ def frag_groups(ctx):
     conc.conc_sessions(ctx, int((30 if ctx.tier == "quick" else 400) * ctx.budget))
 
 
-Unit([("corrupt", scen.gen_corrupt, 2), ("shell", scen.gen_shell, 1), ("sync", scen.gen_sync_read, 1), ("fragslow", scen.gen_frag_slow, 1)],
-     (oracles.o_c03_overrequest, oracles.o_c03_corrupt, oracles.o_c01, oracles.o_c08, oracles.o_c09) + COMMON,
+def _faulted(rng):
+    # a packet cut in the middle by a transport failure, then a new connection (with or without close() in between): the new connection's packets are
+    # reassembled from ITS bytes only
+    from units import c12
+    return c12.gen_faulted(rng)
+
+
+Unit([("corrupt", scen.gen_corrupt, 4), ("shell", scen.gen_shell, 2), ("sync", scen.gen_sync_read, 2), ("fragslow", scen.gen_frag_slow, 2), ("fault", _faulted, 1)],
+     (oracles.o_c03_overrequest, oracles.o_c03_corrupt, oracles.o_c01, oracles.o_c08, oracles.o_c09, oracles.o_c12_after_reconnect) + COMMON,
      "every base session is run under 6 read fragmentations (unfragmented, 1-byte, header split at a random offset 1..23, random 1..60, with empty reads, "
      "{23,24,25,4096}) and must give identical results/bytes sent (metamorphic); the fake transport flags any bulk_read asking for more than remains of "
      "the current packet; single packets get a wrong checksum or an unknown command word and must be rejected. Non-trivial/distinct as for C01.",
